@@ -407,6 +407,10 @@ func (state *RuntimeState) u2fSignResponse(w http.ResponseWriter, r *http.Reques
 		if authErr == nil {
 			metricLogAuthOperation(getClientType(r), proto.AuthTypeU2F, true)
 			logger.Debugf(0, "newCounter: %d", newCounter)
+			// the challenge is good for one authentication only
+			state.Mutex.Lock()
+			delete(state.localAuthData, authData.Username)
+			state.Mutex.Unlock()
 			eventNotifier.PublishAuthEvent(eventmon.AuthTypeU2F, authData.Username)
 			_, isXHR := r.Header["X-Requested-With"]
 			if isXHR {
